@@ -98,6 +98,26 @@ func c02Faults(d *vCtx) error {
 					}
 				}
 			}
+			// targeted count faults: a digit of a numeric line becomes another digit ("#NUM:1" -> "#NUM:0",
+			// a size or an acknowledged length changes): the line stays well-formed
+			for _, m := range w {
+				if m.Typ != "NUM" && m.Typ != "SIZE" && !(m.Typ == "SUCC" && m.Len <= 16) {
+					continue
+				}
+				first := m.Off + len(m.Typ) + 2
+				last := m.Off + m.Len - 2
+				for _, o := range []int{first, last} {
+					if o < first || o >= m.Off+m.Len {
+						continue
+					}
+					for _, mask := range []byte{0x01, 0x02, 0x08} {
+						jobs = append(jobs, c02Job{bi, []e2eFault{{Dir: m.Dir, Off: o, Kind: "flip", Val: mask}}, "digit"})
+					}
+					if o == last && first == last {
+						break
+					}
+				}
+			}
 			// targeted double faults: payload damage that may still decode, together with damage to
 			// the digest line of the same file (a digest that cannot be decoded must not be skipped)
 			if c.Opts.Compress == 2 {
